@@ -129,4 +129,86 @@ theorem gumbel_branch_pdf_dist {x μ l α : ℝ} (hl : 0 < l) (hα : α ≠ 0) (
   rw [this, abs_mul, abs_of_pos hpos, mul_comm]
   exact mul_le_mul_of_nonneg_right (abs_exp_sub_one_le_of_abs_le hd) hpos.le
 
+/-- `t ↦ log(1 − e^{−t})` on `t > 0`: `|f a − f b| ≤ |a − b| / min a b` (its derivative `1/(e^t − 1)` is at most `1/t`) -/
+theorem abs_log_one_sub_exp_neg_sub {a b : ℝ} (ha : 0 < a) (hb : 0 < b) :
+    |log (1 - exp (-a)) - log (1 - exp (-b))| ≤ |a - b| / min a b := by
+  wlog h : a ≤ b generalizing a b
+  · rw [abs_sub_comm, abs_sub_comm a, min_comm]; exact this hb ha (le_of_not_ge h)
+  rw [min_eq_left h]
+  have hA1 : exp (-a) < 1 := by rw [exp_lt_one_iff]; linarith
+  have hB1 : exp (-b) < 1 := by rw [exp_lt_one_iff]; linarith
+  have hA : 0 < 1 - exp (-a) := by linarith
+  have hB : 0 < 1 - exp (-b) := by linarith
+  have hmono : 1 - exp (-a) ≤ 1 - exp (-b) := by have := exp_le_exp.mpr (neg_le_neg h); linarith
+  have h0 : log (1 - exp (-a)) ≤ log (1 - exp (-b)) := log_le_log hA hmono
+  rw [abs_sub_comm, abs_of_nonneg (by linarith), abs_sub_comm, abs_of_nonneg (by linarith), ← log_div hB.ne' hA.ne']
+  -- (1 - e^{-b}) / (1 - e^{-a}) ≤ 1 + (b - a) / a
+  have hnum : exp (-a) - exp (-b) ≤ exp (-a) * (b - a) := by
+    have : exp (-b) = exp (-a) * exp (-(b - a)) := by rw [← exp_add]; ring_nf
+    have h1 := add_one_le_exp (-(b - a))
+    have hpos := exp_pos (-a)
+    rw [this]; nlinarith
+  have hden : exp (-a) * a ≤ 1 - exp (-a) := by
+    have h1 := add_one_le_exp a
+    have : exp (-a) * exp a = 1 := by rw [← exp_add]; simp
+    have hpos := exp_pos (-a)
+    nlinarith
+  have hratio : (1 - exp (-b)) / (1 - exp (-a)) ≤ 1 + (b - a) / a := by
+    rw [div_le_iff₀ hA]
+    have e : (1 + (b - a) / a) * (1 - exp (-a)) = (1 - exp (-a)) + (b - a) / a * (1 - exp (-a)) := by ring
+    rw [e]
+    have h2 : exp (-a) * (b - a) ≤ (b - a) / a * (1 - exp (-a)) := by
+      have hba : 0 ≤ b - a := by linarith
+      have : (b - a) / a * (exp (-a) * a) = exp (-a) * (b - a) := by field_simp
+      rw [← this]
+      exact mul_le_mul_of_nonneg_left hden (div_nonneg hba ha.le)
+    linarith
+  have hpos : 0 < (1 - exp (-b)) / (1 - exp (-a)) := div_pos hB hA
+  calc log ((1 - exp (-b)) / (1 - exp (-a))) ≤ log (1 + (b - a) / a) := log_le_log hpos hratio
+    _ ≤ (b - a) / a := by
+      have : 0 < 1 + (b - a) / a := by have := div_nonneg (sub_nonneg.mpr h) ha.le; linarith
+      have := log_le_sub_one_of_pos this; linarith
+
+/-- log survival: the code is within `3e-8` of the Gumbel's `log surv` (its own three-way switch), and the GEV's `log surv`
+    with the actual `α` is within `7e-12·|y|` of the Gumbel's -/
+theorem gumbel_branch_logsurv_dist {x μ l α : ℝ} (hα : α ≠ 0) (hg : |l * (x - μ) * α| < 1e-12) (hy : |l * (x - μ)| ≤ 1e11) :
+    |esl_gev_logsurv x μ l α - log (gevSurv μ l α x)| ≤ 3e-8 + 7e-12 * |l * (x - μ)| := by
+  have h1 := GevThm.gumbel_branch_logsurv (x := x) (μ := μ) (l := l) (α := α) hg
+  have hu : |α * (l * (x - μ))| < 1e-12 := by rw [mul_comm]; exact hg
+  have harg : 0 < gevArg μ l α x := by
+    unfold gevArg; have := (abs_lt.mp hu).1; norm_num at this; linarith
+  have hc := GevThm.gumbel_branch_logcdf_dist hα hg hy
+  rw [GevThm.gumbel_branch_logcdf hg] at hc
+  unfold esl_gumbel_logcdf gevCdf at hc
+  simp only [num_exp] at hc
+  rw [if_neg (not_le.mpr harg), log_exp] at hc
+  have e0 : gevArg μ l α x = 1 + α * (l * (x - μ)) := rfl
+  have hS : gevSurv μ l α x = 1 - exp (-exp (-(log (gevArg μ l α x) / α))) := by
+    unfold gevSurv gevCdf; rw [if_neg (not_le.mpr harg)]
+  have hG : gumbelSurv μ l x = 1 - exp (-exp (-(l * (x - μ)))) := by unfold gumbelSurv gumbelCdf; rfl
+  set y := l * (x - μ) with hyd
+  set a := exp (-y) with had
+  set b := exp (-(log (gevArg μ l α x) / α)) with hbd
+  have ha : 0 < a := exp_pos _
+  have hb : 0 < b := exp_pos _
+  have hab : |a - b| ≤ 4e-12 * |y| * a := by
+    have : -a - -b = -(a - b) := by ring
+    rw [this, abs_neg] at hc; exact hc
+  have hη : 4e-12 * |y| ≤ 0.4 := by nlinarith [abs_nonneg y]
+  have hmin : 0.6 * a ≤ min a b := by
+    refine le_min (by nlinarith) ?_
+    have := (abs_le.mp hab).2
+    nlinarith [abs_nonneg y]
+  have h2 := abs_log_one_sub_exp_neg_sub ha hb
+  have h3 : |a - b| / min a b ≤ 7e-12 * |y| := by
+    rw [div_le_iff₀ (lt_of_lt_of_le (by positivity) hmin)]
+    have : 7e-12 * |y| * (0.6 * a) ≤ 7e-12 * |y| * min a b :=
+      mul_le_mul_of_nonneg_left hmin (by positivity)
+    nlinarith [abs_nonneg y]
+  rw [hS]
+  have e : esl_gev_logsurv x μ l α - log (1 - exp (-b))
+      = (esl_gev_logsurv x μ l α - log (gumbelSurv μ l x)) + (log (1 - exp (-a)) - log (1 - exp (-b))) := by rw [hG]; ring
+  rw [e]
+  exact (abs_add_le _ _).trans (add_le_add h1 (h2.trans h3))
+
 end EaselModel.Dist.GevDist
